@@ -30,6 +30,12 @@ Definition gen_ok : bool :=
     [("SAFE"%string, 0); ("SUSPICIOUS"%string, 1); ("DANGEROUS"%string, 2); ("CRITICAL"%string, 3)] &&
   match gen_problems with [] => true | _ => false end.
 
+(* A host pattern (KHost) in a correspondence case: its matcher restricted to the
+   contents the case submits, as the list of those contents that CPython's re,
+   compiled from that single pattern with IGNORECASE, finds a match in (recorded
+   by the harness from re itself, never from the gates under test). *)
+Definition tab (l : list (list Z)) : list Z -> bool := fun c => hmem c l.
+
 Definition pick {A} (l : list A) (idx : list nat) : list A :=
   flat_map (fun i => match nth_error l i with Some x => [x] | None => [] end) idx.
 
